@@ -85,6 +85,19 @@ CHECKS = {
             "recomputed scaled error equal to the z3 optimum (incl. sparsity lambda), reported error equal to the recomputed error, and stay "
             "within (1+eps) with few_flow_values_epsilon.",
             "graphs <= 11 edges; " + TRUST, "DESIGN.md 4/C16"),
+    "C07": ("exploration", "runtime monitor on k-LeastAbsErrors(+Cycles) getters + recomputation oracle + exact z3 optimum (DAG) / bounded witness, DAG-vs-cyclic differential and k-monotonicity (cyclic)",
+            "For every solved model the per-element errors and the (scaled) objective are recomputed from the returned routes and compared with "
+            "edge_errors / get_objective_value(), the model's own is_valid_solution() must accept its optimum, exactly k routes are returned; "
+            "DAG optimum = exact z3 optimum over all source-to-sink paths (incl. starts/ends, ignore, scaling, weights superset); the walk model "
+            "must not be worse than the best solution over all Euler vectors with multiplicities <= 3, must agree with the DAG model on acyclic "
+            "inputs and must not get worse with larger k.",
+            "cyclic optimality is a witness comparison only; inputs whose non-ignored weights are all zero are outside the domain; " + TRUST, "DESIGN.md 4/C07"),
+    "C08": ("exploration", "runtime monitor on k-MinPathError(+Cycles) + z3 covering number, slack-inequality recomputation, exact z3 optimum (DAG) / bounded witness + differential (cyclic)",
+            "For k = reference covering number (+0/+1) or k=None the model must be solved (model.k = covering number for None), every non-ignored "
+            "element must satisfy scale*|f - sum w*cnt| <= sum slack*cnt*length-factor, the objective must equal the sum of slacks and the exact "
+            "z3 optimum over all paths (DAG; incl. path-length factors, superset) or be no worse than the best bounded-multiplicity witness (cyclic); "
+            "violations of the walk model are classified by mechanism by re-solving the reference under the library's own caps/bounds.",
+            "graphs <= 8 edges, covering number <= 4; solver limit 30 s (no verdict when hit); " + TRUST, "DESIGN.md 4/C08"),
 }
 
 NOT_YET = {}
